@@ -6,6 +6,12 @@ ARITH = {"mul": ("*", 9), "div": ("\\", 9), "mod": ("%", 9), "add": ("+", 8), "s
 CMP = {"lt": "<", "gt": ">", "le": "<=", "ge": ">=", "eq": "==", "ne": "!="}
 LV_UNARY, LV_CMP, LV_EQ, LV_NOT, LV_AND, LV_OR = 10, 3, 2, 1, 0, -1
 NSTR = 3
+# identifiers of the strings: the first is a proper prefix of the second (string sets select by exact name or by `*` wildcard)
+SIDS = ["_s0", "_s01", "_s2"]
+
+
+def sid(i):
+    return SIDS[i]
 
 
 def const_value(t):
@@ -280,7 +286,9 @@ class Printer:
         return q if isinstance(q, str) else self.arg(q[1])
 
     def sset(self, st):
-        return "them" if st == list(range(NSTR)) else "(" + ",".join("$_s%d" % i for i in st) + ")"
+        if st == [0, 1]:
+            return "($_s0*)"            # the wildcard form selects exactly the two identifiers that start with _s0
+        return "them" if st == list(range(NSTR)) else "(" + ",".join("$" + sid(i) for i in st) + ")"
 
     def raw(self, e):
         k = e[0]
@@ -291,13 +299,13 @@ class Printer:
         if k == "ext":
             return "ext%d" % e[1]
         if k == "cnt":
-            return "#_s%d" % e[1]
+            return "#" + sid(e[1])
         if k == "var":
             return self.var(e[1])
         if k == "off":
-            return "@_s%d[%s]" % (e[1], self.raw(e[2]))
+            return "@%s[%s]" % (sid(e[1]), self.raw(e[2]))
         if k == "len":
-            return "!_s%d[%s]" % (e[1], self.raw(e[2]))
+            return "!%s[%s]" % (sid(e[1]), self.raw(e[2]))
         if k == "rd":
             return "%sint%d%s(%s)" % ("" if e[2] else "u", 8 * e[1], "be" if e[3] else "", self.raw(e[4]))
         if k == "neg":
@@ -310,17 +318,17 @@ class Printer:
         if k in ("t", "f"):
             return "true" if k == "t" else "false"
         if k == "s":
-            return "$_s%d" % e[1]
+            return "$" + sid(e[1])
         if k == "cur":
             return "$"
         if k == "rule":
             return self.names[e[1]]
         if k == "at":
-            return "$_s%d at %s" % (e[1], self.arg(e[2]))
+            return "$%s at %s" % (sid(e[1]), self.arg(e[2]))
         if k == "curat":
             return "$ at %s" % self.arg(e[1])
         if k == "in":
-            return "$_s%d in (%s..%s)" % (e[1], self.raw(e[2]), self.raw(e[3]))
+            return "$%s in (%s..%s)" % (sid(e[1]), self.raw(e[2]), self.raw(e[3]))
         if k == "curin":
             return "$ in (%s..%s)" % (self.raw(e[1]), self.raw(e[2]))
         if k == "cmp":
